@@ -58,6 +58,14 @@ def generate(seed, tier="quick"):
         shape = {"kind": "swc", "swc_text": gen_swc(r), "ncomp": r.randint(1, 3)}
     else:
         shape = gen_any_shape(r)
+        if shape["kind"] == "network" and r.random() < 0.3:
+            # networks of unbranched cables and point neurons (no branch point anywhere, the last cells without any
+            # compartment-to-compartment edge): what a copy has to rebuild or carry over is least redundant here
+            for c_ in shape["cells"]:
+                c_["parents"], c_["ncomp"] = [-1], [c_["ncomp"][0]]
+                c_.pop("pre", None)
+            for c_ in shape["cells"][-r.randint(1, 2):]:
+                c_["ncomp"] = [1]
     o = stream(seed, "ops")
     cfg = {"L": o.randint(4, 12), "channels": o.sample(mech.CHANNELS, o.randint(2, 5)), "synapses": o.sample(mech.SYNAPSES, o.randint(1, 3)), "p_syn_clamp": 0.25}
     weights = swarm(o)
@@ -143,6 +151,8 @@ def compare_copies(w, a, b, program, how, i, with_grad):
     if getattr(a, "_radius_generating_fns", None) is not None and getattr(b, "_radius_generating_fns", None) is None:
         w.violate("copy_equal", f"{how} copy lost the SWC radius-generating functions", i, {"how": how})
         return False
+    if not copy_of_views(w, a, sa, how, i):
+        return False
     sarg, steps = runnable(w.ref, program)
     if steps is None:
         return True
@@ -192,6 +202,63 @@ def compare_copies(w, a, b, program, how, i, with_grad):
                 if not simrun.close(np.asarray(da[k]), np.asarray(db[k]), rtol=1e-9, atol=1e-12):
                     w.violate("copy_grad_equal", f"gradient w.r.t. {k} of the {how} copy differs from the original by {simrun.maxdiff(np.asarray(da[k]), np.asarray(db[k])):.3e}", i, {"how": how})
                     return False
+    return True
+
+
+def copy_of_views(w, a, sa, how, i):
+    """Views are modules too (`Module.copy()` returns a deep-copied view, the test-suite pickles them): a copied view
+    shows the same tables as the view it was copied from — including the columns that exist only in a view and decide how
+    `make_trainable` shares parameters and how `.edge()` resolves — and carries a base equal to, and distinct from, the original."""
+    from ..refmodule import Reject, Unspec
+
+    specs = [[["cell", "all"]]] if w.ref.kind == "network" else ([[["branch", "all"]]] if w.ref.kind == "cell" else [])
+    if w.ref.kind in ("cell", "network") and w.ref.n > 1:
+        specs.append([["select_nodes", {"t": "list", "v": [0, w.ref.n - 1]}]])
+    if w.ref.edges:
+        specs.append([["syn", w.ref.edges[-1]["type"]]])
+    for spec in specs:
+        try:
+            rv, thunk, calls = w.resolve_view(spec, m=a)
+        except (Reject, Unspec):
+            continue
+        try:
+            with quiet():
+                v = thunk()
+        except Exception as e:  # noqa: BLE001  (a view that cannot be built is C11's business)
+            if exc_in_harness(e):
+                raise HarnessError(f"view {spec}: {e}") from e
+            continue
+        try:
+            v2 = faults.persist(v, how)
+        except faults.PersistFailed as e:
+            w.violate("copy_equal", f"view {calls}: {e}", i, {"how": how, "view": True})
+            return False
+        w.bump("oracle_copy_view")
+        for name in ("nodes", "edges"):
+            fa, fb = getattr(v, name), getattr(v2, name)
+            if list(fa.columns) != list(fb.columns) or not fa.equals(fb):
+                cols = [c for c in fa.columns if c not in fb.columns or not fa[c].equals(fb[c])] + [c for c in fb.columns if c not in fa.columns]
+                w.violate("copy_equal", f"{how} copy of the view {calls} shows different {name}: columns {cols[:6]}", i, {"how": how, "view": True})
+                return False
+        if v2.base is a or v2.base is v.base:
+            w.violate("copy_independent", f"{how} copy of the view {calls} still refers to the original module", i, {"how": how, "view": True})
+            return False
+        sb2 = snap.snapshot(v2.base)
+        if sb2 != sa:
+            w.violate("copy_equal", f"the module inside the {how} copy of the view {calls} differs: " + "; ".join(snap.diff(sa, sb2)[:3]), i, {"how": how, "view": True})
+            return False
+        if spec[0][0] == "syn":
+            try:
+                with quiet():
+                    ea, eb = v.edge(0).edges.index.tolist(), v2.edge(0).edges.index.tolist()
+            except Exception as e:  # noqa: BLE001
+                if exc_in_harness(e):
+                    raise HarnessError(f"edge(0): {e}") from e
+                w.violate("copy_equal", f".edge(0) on the view {calls} or on its {how} copy raised {exc_text(e)}", i, {"how": how, "view": True})
+                return False
+            if ea != eb:
+                w.violate("copy_equal", f".edge(0) selects {eb} on the {how} copy of the view {calls}, {ea} on the view", i, {"how": how, "view": True})
+                return False
     return True
 
 
